@@ -45,6 +45,7 @@ TRUSTED = ['modelled, not verified: path resolution of GroupLibrary.Load / DataD
 
 DUMP = r'''
 import sys, os, json, warnings, hashlib
+#SHIM#
 warnings.filterwarnings('ignore')
 import numpy as np
 import pgradd.ThermoChem
@@ -106,16 +107,90 @@ json.dump(out, sys.stdout)
 '''
 
 
-def fresh_load(ctx, mode, arg, names, env_extra=None):
+def fresh_load(ctx, mode, arg, names, env_extra=None, cwd=None):
     env = dict(os.environ)
     env.pop('pgradd_DATA_DIR', None)
     if env_extra:
         env.update(env_extra)
     script = os.path.join(ctx.scratch, 'dump.py')
     if not os.path.exists(script):
-        open(script, 'w').write(DUMP)
-    return subprocess.Popen([sys.executable, script, mode, arg, json.dumps(names)], env=env, cwd=ctx.scratch,
+        open(script, 'w').write(DUMP.replace('#SHIM#', ENCODING_SHIM))
+    return subprocess.Popen([sys.executable, script, mode, arg, json.dumps(names)], env=env, cwd=cwd or ctx.scratch,
                             stdout=subprocess.PIPE, stderr=subprocess.PIPE, text=True)
+
+
+# ------------------------------------------------------------------------------------------ the process around the load
+# What a library holds depends on the library's files alone: not on the directory the process happens to run in, and not on
+# the text encoding the process happens to default to.
+C_LOCALE = {'LC_ALL': 'C', 'LANG': 'C', 'PYTHONUTF8': '0', 'PYTHONCOERCECLOCALE': '0'}
+# default text encodings of other platforms (Windows ANSI code pages), imitated in the fresh process: open() without an
+# encoding argument gets this one (see ENCODING_SHIM; the C locale above is the real thing, these are stand-ins)
+OTHER_ENCODINGS = ['cp1252', 'cp932']
+ENCODING_SHIM = r'''
+import builtins, io, os
+_enc = os.environ.get('C14_DEFAULT_TEXT_ENCODING')
+if _enc:
+    _open = builtins.open
+    def _open_with_default(file, mode='r', buffering=-1, encoding=None, errors=None, newline=None, closefd=True, opener=None):
+        if encoding is None and 'b' not in mode:
+            encoding = _enc
+        return _open(file, mode, buffering, encoding, errors, newline, closefd, opener)
+    builtins.open = _open_with_default
+    io.open = _open_with_default
+'''
+
+
+def include_entries(pkg_data, names):
+    """{library: [(file that includes, relative to the library directory; include entry as written)]}: the include closure of
+    every shipped library.yaml, read from the files"""
+    import yaml
+    out = {}
+    for nm in names:
+        seen, todo, ents = set(), ['library.yaml'], []
+        while todo:
+            rel = todo.pop()
+            if rel in seen:
+                continue
+            seen.add(rel)
+            path = os.path.join(pkg_data, nm, rel)
+            if not os.path.isfile(path):
+                continue
+            with open(path, 'rb') as f:
+                doc = yaml.safe_load(f.read().decode('utf-8', 'replace'))
+            for inc in (doc or {}).get('include') or []:
+                ents.append((rel, inc))
+                todo.append(os.path.normpath(os.path.join(os.path.dirname(rel), inc)))
+        out[nm] = ents
+    return out
+
+
+def decoy_files(entries):
+    """{path relative to the working directory: text}: a well-formed library file of other contents under every name by which
+    some shipped file includes another (as written, and relative to the library directory), plus the two fixed file names"""
+    rels = {'library.yaml', 'scheme.yaml'}
+    for nm, ents in entries.items():
+        for src, inc in ents:
+            if os.path.isabs(inc):
+                continue
+            rels.add(os.path.normpath(inc))
+            rels.add(os.path.normpath(os.path.join(os.path.dirname(src), inc)))
+    out = {}
+    for k, rel in enumerate(sorted(rels)):
+        if os.path.basename(rel) == 'scheme.yaml':
+            out[rel] = 'patterns: []\n'
+        else:
+            out[rel] = ('units: {}\ngroups:\n  "Xe(Xe)%d": {"thermochem": {"T_ref": "298.15 K", "ND_H_ref": %d.5, "ND_S_ref": -1.25}}\n'
+                        % (k + 2, 1000 + k))
+    return out
+
+
+def write_decoys(d, files):
+    for rel, text in files.items():
+        path = os.path.join(d, rel)
+        os.makedirs(os.path.dirname(path), exist_ok=True)
+        with open(path, 'w') as f:
+            f.write(text)
+    return d
 
 
 def py_wf(g):
@@ -213,34 +288,64 @@ def evaluate_groups(ctx, name, lib, dumped):
                                   'finite plain number', repr(v)[:80], finding=classify_eval_failure(th, None))
 
 
-def run(ctx):
+def way_specs(ctx, pkg_data, names, tag):
+    """the ways a library is located and the process it is loaded in: {way: {'mode', 'arg', 'env', 'cwd', ...}}"""
     import pgradd
-    names = libs.lib_names()
-    pkg_data = os.path.join(os.path.dirname(pgradd.__file__), 'data')
-    # corpus first
-    for fname, rec in common.load_corpus('C14'):
-        ctx.count('corpus')
-        replay(ctx, rec)
-    # --- three ways of locating each library, in fresh processes (run in parallel)
-    tag = 'search' if ctx.searching else 'run'      # `run` is called a second time while searching: fresh copies
     reloc = os.path.join(ctx.scratch, 'elsewhere-' + tag, 'relocated_data')
-    shutil.copytree(pkg_data, reloc)
+    if not os.path.isdir(reloc):
+        shutil.copytree(pkg_data, reloc)
     # a copy of the package WITHOUT its bundled data: the override alone must locate the libraries
     nodata = os.path.join(ctx.scratch, 'nodata_pkg-' + tag)
-    shutil.copytree(os.path.dirname(pgradd.__file__), os.path.join(nodata, 'pgradd'),
-                    ignore=lambda d, fs: [f for f in fs if (os.path.basename(d) == 'pgradd' and f == 'data') or f == '__pycache__'])
-    procs = {
-        'name': fresh_load(ctx, 'name', '', names),
-        'path': fresh_load(ctx, 'path', pkg_data, names),
-        'cwd': fresh_load(ctx, 'cwd', pkg_data, names),
-        'reloc': fresh_load(ctx, 'reloc', '', names, {'pgradd_DATA_DIR': reloc}),
+    if not os.path.isdir(nodata):
+        shutil.copytree(os.path.dirname(pgradd.__file__), os.path.join(nodata, 'pgradd'),
+                        ignore=lambda d, fs: [f for f in fs if (os.path.basename(d) == 'pgradd' and f == 'data') or f == '__pycache__'])
+    # a working directory that holds well-formed library files of other contents under every name a shipped file includes
+    entries = include_entries(pkg_data, names)
+    decoys = decoy_files(entries)
+    ddir = write_decoys(os.path.join(ctx.scratch, 'workdir-with-other-files-' + tag), decoys)
+    ctx.extra.setdefault('coverage', {})['include_entries_of_the_shipped_files'] = sorted({i for e in entries.values() for _, i in e})
+    ctx.extra['coverage']['files_in_the_working_directory_of_the_decoy_ways'] = sorted(decoys)
+    R = {'pgradd_DATA_DIR': reloc}
+    specs = {
+        'name': dict(mode='name', arg=''),
+        'path': dict(mode='path', arg=pkg_data),
+        'cwd': dict(mode='cwd', arg=pkg_data),
+        'reloc': dict(mode='reloc', arg='', env=R),
         # an empty override is "not set": the bundled directory is used
-        'empty': fresh_load(ctx, 'name', '', names, {'pgradd_DATA_DIR': ''}),
+        'empty': dict(mode='name', arg='', env={'pgradd_DATA_DIR': ''}),
         # every library loaded twice in one process, the first result emptied by the caller in between
-        'reload': fresh_load(ctx, 'reload', '', names),
-        'reloc-nodata': fresh_load(ctx, 'reloc', '', names, {'pgradd_DATA_DIR': reloc,
-                                   'PYTHONPATH': nodata + os.pathsep + os.environ.get('PYTHONPATH', '')}),
+        'reload': dict(mode='reload', arg=''),
+        'reloc-nodata': dict(mode='reloc', arg='', env=dict(R, PYTHONPATH=nodata + os.pathsep + os.environ.get('PYTHONPATH', ''))),
+        # the working directory holds files named like the includes (and library.yaml, scheme.yaml) with other contents
+        'name@other-files-in-cwd': dict(mode='name', arg='', cwd=ddir, cwd_files=decoys),
+        'path@other-files-in-cwd': dict(mode='path', arg=pkg_data, cwd=ddir, cwd_files=decoys),
+        'reloc@other-files-in-cwd': dict(mode='reloc', arg='', env=R, cwd=ddir, cwd_files=decoys),
+        # the C/POSIX locale with UTF-8 mode and locale coercion off: the default text encoding of the process is ASCII
+        'name@C-locale': dict(mode='name', arg='', env=C_LOCALE),
+        'path@C-locale': dict(mode='path', arg=pkg_data, env=C_LOCALE),
+        'reloc@C-locale': dict(mode='reloc', arg='', env=dict(R, **C_LOCALE)),
     }
+    for enc in OTHER_ENCODINGS:
+        specs['name@default-encoding-' + enc] = dict(mode='name', arg='', env={'C14_DEFAULT_TEXT_ENCODING': enc})
+    if not ctx.thorough():
+        # quick tier: one located-by-name and one located-by-path process per situation
+        for w in ('reloc@other-files-in-cwd', 'reloc@C-locale', 'name@default-encoding-' + OTHER_ENCODINGS[-1]):
+            specs.pop(w)
+    return specs
+
+
+def way_specs_all(ctx, pkg_data, names, tag):
+    """the specs of the thorough tier (a replay of a thorough run in the quick tier needs them)"""
+    tier = ctx.tier
+    ctx.tier = 'thorough'
+    try:
+        return way_specs(ctx, pkg_data, names, tag)
+    finally:
+        ctx.tier = tier
+
+
+def run_ways(ctx, specs, names, ways):
+    procs = {w: fresh_load(ctx, specs[w]['mode'], specs[w]['arg'], names, specs[w].get('env'), specs[w].get('cwd')) for w in ways}
     dumps = {}
     for way, p in procs.items():
         out, err = p.communicate(timeout=max(60, ctx.time_left()))
@@ -252,8 +357,71 @@ def run(ctx):
             dumps[way] = {'data_dir': None, 'libs': {nm: {'error': last} for nm in names}}
             continue
         dumps[way] = json.loads(out)
-    for w in ('reloc', 'reloc-nodata'):
-        if dumps[w]['data_dir'] is not None and os.path.realpath(dumps[w]['data_dir']) != os.path.realpath(reloc):
+    return dumps
+
+
+def shrink_cwd_files(ctx, specs, nm, w, by_name):
+    """the fewest files in the working directory with which library nm, loaded the way w, still differs from the load by name"""
+    files = specs[w]['cwd_files']
+    n = [0]
+
+    def fails(rels):
+        n[0] += 1
+        d = os.path.join(ctx.scratch, 'workdir-shrink-%d' % n[0])
+        sub = dict((r, files[r]) for r in rels)
+        sp = dict(specs, **{w: dict(specs[w], cwd=write_decoys(d, sub), cwd_files=sub)})
+        other = run_ways(ctx, sp, [nm], [w])[w]['libs'][nm]
+        return 'error' in other or bool(contents_diff(by_name, other))
+    keep = common.shrink_list(sorted(files), fails, max_steps=30)
+    sub = dict((r, files[r]) for r in keep)
+    return dict(specs[w], cwd_files=sub)
+
+
+def way_input(specs, nm, w):
+    """the concrete situation of one load, for a replay file"""
+    sp = specs[w]
+    inp = {'library': nm, 'way': w, 'located_by': sp['mode']}
+    env = {k: v for k, v in (sp.get('env') or {}).items() if k != 'PYTHONPATH'}
+    if env:
+        inp['environment'] = env
+    if sp.get('cwd_files'):
+        inp['working_directory_files'] = sp['cwd_files']
+    return inp
+
+
+def contents_diff(a, b):
+    """{} when two dumps of a library agree in everything but the path; else a summary of where they differ"""
+    out = {}
+    for k in a:
+        if k == 'path' or a[k] == b.get(k):
+            continue
+        if k == 'groups':
+            ga, gb = a[k], b.get(k) or {}
+            out[k] = {'only_in_the_other_load': sorted(set(gb) - set(ga))[:8], 'missing_in_the_other_load': sorted(set(ga) - set(gb))[:8],
+                      'number_missing': len(set(ga) - set(gb)),
+                      'different_data': sorted(g for g in ga if g in gb and ga[g] != gb[g])[:8]}
+        elif isinstance(a[k], list):
+            out[k] = {'here': len(a[k]), 'other_load': len(b.get(k) or [])}
+        else:
+            out[k] = 'differs'
+    return out
+
+
+def run(ctx):
+    import pgradd
+    names = libs.lib_names()
+    pkg_data = os.path.join(os.path.dirname(pgradd.__file__), 'data')
+    # corpus first
+    for fname, rec in common.load_corpus('C14'):
+        ctx.count('corpus')
+        replay(ctx, rec)
+    # --- the ways of locating each library, in fresh processes (run in parallel)
+    tag = 'search' if ctx.searching else 'run'      # `run` is called a second time while searching: fresh copies
+    specs = way_specs(ctx, pkg_data, names, tag)
+    dumps = run_ways(ctx, specs, names, list(specs))
+    reloc = specs['reloc']['env']['pgradd_DATA_DIR']
+    for w in specs:
+        if w.startswith('reloc') and dumps[w]['data_dir'] is not None and os.path.realpath(dumps[w]['data_dir']) != os.path.realpath(reloc):
             ctx.violation('the data-directory override is not honoured', {'pgradd_DATA_DIR': reloc, 'way': w}, reloc, dumps[w]['data_dir'])
     if dumps['empty']['data_dir'] is not None and os.path.realpath(dumps['empty']['data_dir']) != os.path.realpath(pkg_data):
         ctx.violation('an empty data-directory override is not treated as unset', {'pgradd_DATA_DIR': ''}, pkg_data, dumps['empty']['data_dir'])
@@ -263,15 +431,23 @@ def run(ctx):
         for w, d in per.items():
             ctx.case(('load', nm, w), {'library': nm, 'way': w, 'path': d.get('path'), 'error': d.get('error')})
             ctx.count('loads')
+            ctx.count('loads_' + w)
             if 'error' in d:
-                ctx.violation('a bundled library does not load', {'library': nm, 'way': w}, 'loads', d['error'])
+                ctx.violation('a bundled library does not load', way_input(specs, nm, w), 'loads', d['error'])
+        if 'error' in per['name']:
+            continue
+        for w in per:
+            if w != 'name' and 'error' not in per[w]:
+                diff = contents_diff(per['name'], per[w])
+                if diff:
+                    if specs[w].get('cwd_files') and not getattr(ctx, '_c14_shrunk', False):
+                        ctx._c14_shrunk = True
+                        specs = dict(specs)
+                        specs[w] = shrink_cwd_files(ctx, specs, nm, w, per['name'])
+                    ctx.violation('library contents depend on how the library is located / on the process it is loaded in',
+                                  dict(way_input(specs, nm, w), differing=sorted(diff)), 'the contents loaded by name from a neutral directory', diff)
         if any('error' in d for d in per.values()):
             continue
-        strip = lambda d: {k: v for k, v in d.items() if k != 'path'}
-        if not all(strip(per[w]) == strip(per['name']) for w in per):
-            diff = [k for k in per['name'] if k != 'path' and not all(per[w][k] == per['name'][k] for w in per)]
-            ctx.violation('library contents depend on how the library is located', {'library': nm, 'differing': diff},
-                          'identical contents', None)
         # path resolution: implementation (observed lib.path) vs model
         for w, dd, arg in (('name', pkg_data, nm), ('reloc', reloc, nm), ('path', pkg_data, os.path.join(pkg_data, nm, 'library.yaml'))):
             model_reqs.append(({'op': 'c14.resolve', 'exists': [arg] if w == 'path' else [], 'dataDir': dd, 'path': arg},
@@ -376,7 +552,26 @@ def run(ctx):
 def replay(ctx, rec):
     inp = rec.get('input', rec)
     before = len(ctx.violations) + sum(k['count'] for k in ctx.known_seen.values())
-    if 'group' in inp and 'library' in inp:
+    if 'way' in inp and 'library' in inp:
+        # one library, loaded by name from a neutral directory and in the recorded situation (rebuilt from the record)
+        import pgradd
+        names = libs.lib_names()
+        pkg_data = os.path.join(os.path.dirname(pgradd.__file__), 'data')
+        specs = way_specs(ctx, pkg_data, names, 'replay')
+        w, nm = inp['way'], inp['library']
+        if w not in specs:
+            specs.update(way_specs_all(ctx, pkg_data, names, 'replay'))
+        if inp.get('working_directory_files'):
+            d = write_decoys(os.path.join(ctx.scratch, 'workdir-replay'), inp['working_directory_files'])
+            specs[w] = dict(specs[w], cwd=d, cwd_files=inp['working_directory_files'])
+        dumps = run_ways(ctx, specs, [nm], ['name', w] if w != 'name' else ['name'])
+        a, b = dumps['name']['libs'][nm], dumps[w]['libs'][nm]
+        if 'error' in b or 'error' in a:
+            ctx.violation('a bundled library does not load', inp, 'loads', b.get('error') or a.get('error'))
+        elif contents_diff(a, b):
+            ctx.violation('library contents depend on how the library is located / on the process it is loaded in', inp,
+                          'the contents loaded by name from a neutral directory', contents_diff(a, b))
+    elif 'group' in inp and 'library' in inp:
         import warnings
         lib = libs.load(inp['library'])
         for g, ps in lib.contents.items():
